@@ -947,8 +947,12 @@ def start_lines():
             except AttributeError:
                 orig['helper:' + nm] = None
     LINES.start(orig)
-    src = {}
+    import linecache
+    src, text = {}, {}
     for k, f in orig.items():
         c = getattr(f, '__code__', None)
         src[k] = None if c is None else [c.co_filename, c.co_firstlineno]
-    return {'executable': LINES.exe, 'where': src}
+        if c is not None:
+            # the source text as THIS process loaded it (the tree may be edited while the check runs)
+            text[k] = {str(l): linecache.getline(c.co_filename, l).strip() for l in (LINES.exe.get(k) or [])}
+    return {'executable': LINES.exe, 'where': src, 'text': text}
